@@ -1,6 +1,7 @@
 package main
 
 import (
+	"go/types"
 	"encoding/json"
 	"flag"
 	"fmt"
@@ -134,6 +135,10 @@ func main() {
 		fatal(2, "%v", err)
 	}
 
+	if strings.HasPrefix(*dump, "explore:") {
+		explore(w, strings.TrimPrefix(*dump, "explore:"))
+		return
+	}
 	if *dump != "" {
 		doDump(w, *dump, *dumpMode)
 		return
@@ -166,6 +171,11 @@ func main() {
 				for _, k := range []string{"mutants_applied", "mutants_flagged", "benign_applied", "benign_silent", "skipped", "mutants_missed", "benign_flagged", "wrong_obligation", "errors"} {
 					if v, ok := rep[k]; ok {
 						c.Extra["variants_"+k] = v
+					}
+				}
+				for _, k := range []string{"rewrites_applied", "rewrites_silent", "rewrites_flagged", "rewrites_skipped"} {
+					if v, ok := rep[k]; ok {
+						c.Extra[k] = v
 					}
 				}
 			}
@@ -409,4 +419,56 @@ func blockIdx(bs []*ssa.BasicBlock) []int {
 		r = append(r, b.Index)
 	}
 	return r
+}
+
+// explore: ad-hoc inventories used while looking for new rules (never part of a verdict).
+func explore(w *World, what string) {
+	for _, fn := range w.Funcs {
+		fi := w.Info(fn)
+		for _, ci := range allCalls(fn) {
+			call, ok := ci.(*ssa.Call)
+			if !ok {
+				continue
+			}
+			n := calleeName(call)
+			switch what {
+			case "decoders":
+				if n == "encoding/json.Unmarshal" {
+					ok, why := freshDecodeTarget(fi, call)
+					fmt.Printf("%-8v %s %s  %s\n", ok, w.InstrPos(call), fnName(fn), why)
+				}
+				if n == "(*encoding/json.Decoder).Decode" {
+					fmt.Printf("decoder  %s %s\n", w.InstrPos(call), fnName(fn))
+				}
+			case "stat":
+				if n == "os.Stat" || n == "os.Lstat" || n == "io/fs.Stat" || strings.HasSuffix(n, "DirEntry.Info") || strings.HasSuffix(n, "DirEntry.Type") {
+					fmt.Printf("%-28s %s %s\n", n, w.InstrPos(call), fnName(fn))
+				}
+			case "time":
+				if n == "time.Now" {
+					fmt.Printf("%s %s\n", w.InstrPos(call), fnName(fn))
+				}
+			case "errdrop":
+				// calls whose error result is never looked at
+				var errV ssa.Value
+				if isErrorType(call.Type()) {
+					errV = call
+				}
+				if tup, ok := call.Type().(*types.Tuple); ok && tup.Len() > 0 && isErrorType(tup.At(tup.Len()-1).Type()) {
+					used := false
+					for _, r := range *call.Referrers() {
+						if ex, ok := r.(*ssa.Extract); ok && ex.Index == tup.Len()-1 && len(*ex.Referrers()) > 0 {
+							used = true
+						}
+					}
+					if !used {
+						fmt.Printf("dropped  %s %s  %s\n", w.InstrPos(call), fnName(fn), n)
+					}
+				}
+				if errV != nil && (errV.Referrers() == nil || len(*errV.Referrers()) == 0) {
+					fmt.Printf("dropped  %s %s  %s\n", w.InstrPos(call), fnName(fn), n)
+				}
+			}
+		}
+	}
 }
